@@ -32,6 +32,10 @@ CONSTANTS StateVals,    \* State item values explored (ABSENT included)
 
 ABSENT == 256
 EMPTY  == 257
+\* State items that are present but are not a one-byte step number: zero length / the expected step number
+\* followed by a trailing byte.  Neither is "the expected step number"; only a *missing* State item is tolerated.
+STATE_EMPTY    == 258
+STATE_TRAILING == 259
 
 \* PV_M2R: pair-verify M2 when the controller holds a previous session (BLE) and asked to resume it: the reply
 \* is a resume answer (Method=Resume, new SessionID, auth tag in the EncryptedData item) that ends the exchange
@@ -67,7 +71,8 @@ Filters(s, t) == s \in ProtoSteps /\ t \in {"ip", "coap"}
 \* retry: position of a RetryDelay item - "none", "last" (after everything) or "first" (between State and Error;
 \* only explored for replies that carry an Error item)
 Reply(s) == { r \in [state : StateVals, error : ErrorVals, others : SUBSET Fields(s), retry : {"none", "last", "first"}] :
-              r.retry = "first" => r.error # ABSENT }
+              /\ r.retry = "first" => r.error # ABSENT
+              /\ r.state \in {STATE_EMPTY, STATE_TRAILING} => r.retry = "none" }
 
 Wire(r) == (IF r.state # ABSENT THEN <<"state">> ELSE << >>)
            \o (IF r.retry = "first" THEN <<"retry">> ELSE << >>)
